@@ -283,13 +283,75 @@ pub fn run(ctx: &mut Ctx) {
     });
 
     // ---- lists handed to sort / min / max / in: incomparable and NaN-laden ------------------
-    let nsort = ctx.n(20_000, 200_000);
+    let nsort = ctx.n(30_000, 400_000);
+    let dbl: Vec<CelValue> = vals::double_pool().into_iter().map(CelValue::from_float).collect();
+    let num: Vec<CelValue> = dbl
+        .iter()
+        .cloned()
+        .chain(vals::int_pool().into_iter().map(CelValue::from_int))
+        .chain(vals::uint_pool().into_iter().map(CelValue::from_uint))
+        .collect();
+    let strs: Vec<CelValue> = vals::string_pool().into_iter().map(CelValue::from_string).collect();
     ctx.stage("sort-hostile", nsort, true, |_idx, rng, rep| {
-        let n = rng.below(40);
-        let l: Vec<CelValue> = (0..n).map(|_| rng.pick(&full).clone()).collect();
-        let binds = vec![("l".to_string(), CelValue::from_list(l))];
-        for src in ["l.sort()", "sort(l)", "l.map(x, x).sort()", "l.filter(x, x in l)"] {
+        // lengths on both sides of the standard library's small-sort thresholds (20, 32, 64)
+        let n = match rng.below(4) {
+            0 => rng.below(8),
+            1 => 15 + rng.below(25),
+            2 => 40 + rng.below(60),
+            _ => rng.below(40),
+        };
+        let family = rng.below(7);
+        rep.count(&format!("sort_family/{}", family));
+        let nan = CelValue::from_float(f64::NAN);
+        let mut l: Vec<CelValue> = (0..n)
+            .map(|i| match family {
+                0 => rng.pick(&full).clone(),
+                1 => rng.pick(&dbl).clone(),
+                2 => rng.pick(&num).clone(),
+                3 => rng.pick(&strs).clone(),
+                // a comparable family with a few NaN strewn in
+                4 => {
+                    if rng.chance(1, 12) {
+                        nan.clone()
+                    } else {
+                        CelValue::from_float(rng.range(-50, 50) as f64 / 4.0)
+                    }
+                }
+                // scrambled ints (long runs, duplicates)
+                5 => CelValue::from_int(rng.range(-20, 20) * if i % 3 == 0 { -1 } else { 1 }),
+                _ => CelValue::from_uint(rng.below(30) as u64),
+            })
+            .collect();
+        // one stranger at a random position: NaN, another type, a list, null
+        if n > 0 && rng.chance(1, 2) {
+            let at = rng.below(n);
+            l[at] = match rng.below(5) {
+                0 | 1 => nan.clone(),
+                2 => rng.pick(&full).clone(),
+                3 => CelValue::from_null(),
+                _ => CelValue::from_list(vec![1.into()]),
+            };
+            rep.count("sort_lists_with_stranger");
+        }
+        if l.len() > 20 {
+            rep.count("sort_lists_longer_than_20");
+            if l.iter().any(|v| matches!(v, CelValue::Float(f) if f.is_nan())) {
+                rep.count("sort_long_lists_with_nan");
+            }
+        }
+        let lv = CelValue::from_list(l);
+        let binds = vec![("l".to_string(), lv.clone())];
+        for src in ["l.sort()", "sort(l)", "l.map(x, x).sort()", "l.filter(x, x in l)", "l.sort().sort()", "l.max()", "l.min()", "max(l)", "min(l)"] {
             total(rep, "sort-hostile", src, &binds);
+        }
+        // the same list as a literal: folded at compile time
+        if let Some(lit) = vals::spell(&lv) {
+            if lit.len() < 6000 {
+                rep.count("sort_literal_forms");
+                for shape in ["@.sort()", "@.sort()[0]", "size(@.sort())"] {
+                    total(rep, "sort-hostile-literal", &shape.replace('@', &lit), &[]);
+                }
+            }
         }
     });
 
